@@ -970,6 +970,7 @@ func ruleRecvWindowRefill(p *Prog, r *Out) {
 				// the refill that follows in the same function
 				subst := singleDefs(fd.Body)
 				refill := false
+				var refillIf *ast.IfStmt
 				ast.Inspect(fd.Body, func(m ast.Node) bool {
 					ifs, ok := m.(*ast.IfStmt)
 					if !ok || ifs.Pos() < as.Pos() {
@@ -1003,9 +1004,25 @@ func ruleRecvWindowRefill(p *Prog, r *Out) {
 					})
 					if reset && send {
 						refill = true
+						refillIf = ifs
 					}
 					return true
 				})
+				// nothing may leave the function between the debit and the refill test
+				if refillIf != nil {
+					early := ""
+					ast.Inspect(fd.Body, func(m ast.Node) bool {
+						if _, ok := m.(*ast.FuncLit); ok {
+							return false
+						}
+						if rs, ok := m.(*ast.ReturnStmt); ok && rs.Pos() > as.Pos() && rs.Pos() < refillIf.Pos() {
+							early = p.pos(rs.Pos())
+						}
+						return true
+					})
+					r.check(early == "", fn+" refill reached on every path", p.pos(as.Pos()), "no return between the debit and the refill test",
+						fmt.Sprintf("%s can return (at %s) after debiting the connection receive counter and before the below-half refill test: frames that take that path (e.g. every DATA frame carrying END_STREAM) are debited but never trigger a refill, so a peer whose uploads all fit in one frame runs its connection window down to zero and stalls", fn, early))
+				}
 				r.check(refill, fn+" refills to max", p.pos(as.Pos()), "below max/2: WINDOW_UPDATE(0, max-current); current = max",
 					fmt.Sprintf("%s: after the debit, below half the maximum the connection WINDOW_UPDATE is not exactly (max - current) with current then reset to max on the same path: the peer is granted more or less than the receiver books", fn))
 				return true
